@@ -367,7 +367,7 @@ fn repo_vectors(idx: u64, seed: u64, ctx: &mut Ctx) -> R {
 }
 
 pub fn verify_vectors() -> Vec<(String, String, Vec<String>)> {
-    let path = format!("{}/corpus/verify_vectors.json", VERIF_DIR);
+    let path = format!("{}/corpus/verify_vectors.json", verif_dir());
     let mut out = Vec::new();
     if let Ok(s) = std::fs::read_to_string(&path) {
         if let Ok(v) = serde_json::from_str::<serde_json::Value>(&s) {
